@@ -18,6 +18,32 @@ def stores(fn, field):
     return res
 
 
+class NextLike:
+    """`next` and the private helper methods of the coin that advance it by calling next() on every path and hand its output on
+    (`fn next_u64(&mut self) -> u64 { let d = self.next(); .. }`)"""
+
+    def __init__(self, prog, adt, nxt):
+        self.names = {nxt.nname}
+        for h in prog.methods_of(adt, None):
+            if h is nxt or h.get("impl_trait") or h.kind == "closure":
+                continue
+            nb = [(b, T) for b, t in h.calls() if callee_name(t) == nxt.nname]
+            if nb and must_between(h, None, nb, rets(h))[0]:
+                g = flow(h)
+                ok = False
+                for b in (x for x, blk in enumerate(h.blocks) if blk["t"]["k"] == "return"):
+                    w = g.walk(ops=[{"copy": {"l": 0}}], at=(b, T))
+                    ok = ok or nxt.nname in g.callee_names_in(w)
+                if ok:
+                    self.names.add(h.nname)
+
+    def is_call(self, t):
+        return callee_name(t) in self.names
+
+    def among(self, names):
+        return bool(self.names & set(names))
+
+
 class EStore:
     """a store to a coin field as seen from method f: made by f itself, or by a private helper method of the coin that f calls on self
     (the helper's operands are lifted to f's frame through the call's arguments)"""
@@ -99,8 +125,9 @@ def run(ck):
             raise AnchorError(f"{label}: counter-mode expansion method `next` not found")
         ck.saw(nxt[0])
         check_next(ck, prog, label, nxt[0])
-        check_draw(ck, prog, label, meth["draw"], nxt[0])
-        check_draw_integers(ck, prog, label, meth["draw_integers"], nxt[0])
+        nl = NextLike(prog, adt, nxt[0])
+        check_draw(ck, prog, label, meth["draw"], nl)
+        check_draw_integers(ck, prog, label, meth["draw_integers"], nl)
         check_clz(ck, prog, label, meth["check_leading_zeros"])
     pow_complement(ck, prog)
     controls(ck, prog, impls)
@@ -173,12 +200,12 @@ def check_draw(ck, prog, label, f, nxt):
             continue
         for b, t in frb:
             aw = g.walk(ops=[t["args"][0]], at=(b, T))
-            if nxt.nname not in g.callee_names_in(aw):
+            if not nxt.among(g.callee_names_in(aw)):
                 good = False
     ck.ob("DRAW", f"{label}::draw:validated", good,
           f"{label}::draw: every returned element is the Some payload of from_random_bytes applied to the output of next()", loc=f.loc())
     # one next() per attempt: every cycle through a from_random_bytes call passes a next() call
-    nb = [(b, T) for b, t in f.calls() if callee_name(t) == nxt.nname]
+    nb = [(b, T) for b, t in f.calls() if nxt.is_call(t)]
     fb = [(b, T) for b, t in f.calls() if (callee_name(t) or "").endswith("Randomizable::from_random_bytes")]
     per = bool(nb) and bool(fb) and must_between(f, fb, nb, fb)[0] and must_between(f, None, nb, fb)[0]
     ck.ob("DRAW", f"{label}::draw:fresh-output-per-attempt", per,
@@ -200,7 +227,7 @@ def check_draw_integers(ck, prog, label, f, nxt):
     g = flow(f)
     ss = eff_stores(prog, f, "seed")
     cs = eff_stores(prog, f, "counter")
-    nb = [(b, T) for b, t in f.calls() if callee_name(t) == nxt.nname]
+    nb = [(b, T) for b, t in f.calls() if nxt.is_call(t)]
     ok_seed = any(any(n.endswith("merge_with_int") for n in es.names) and _has_field(es, "seed") and "nonce" in es.params for es in ss)
     before = bool(ss) and bool(nb) and must_between(f, None, [es.node for es in ss], nb)[0]
     ck.ob("STATE", f"{label}::draw_integers:reseed-with-nonce", ok_seed and before,
@@ -220,12 +247,12 @@ def check_draw_integers(ck, prog, label, f, nxt):
                 wa = g.walk(ops=[s["rv"]["a"]], at=(bb, i))
                 wb = g.walk(ops=[s["rv"]["b"]], at=(bb, i))
                 for x, y in ((wa, wb), (wb, wa)):
-                    if nxt.nname in g.callee_names_in(x) and any(f.local_name(p) == "domain_size" for p in g.params_in(y)) \
-                            and any(c.startswith("lit:1:") for c in g.consts_in(y)) and nxt.nname not in g.callee_names_in(y):
+                    if nxt.among(g.callee_names_in(x)) and any(f.local_name(p) == "domain_size" for p in g.params_in(y)) \
+                            and any(c.startswith("lit:1:") for c in g.consts_in(y)) and not nxt.among(g.callee_names_in(y)):
                         # and this BitAnd feeds the push
                         if ("l", 0) or True:
                             masked = masked or _feeds(g, f, s["lhs"]["l"], t["args"][1], (b, T))
-        if not (masked and nxt.nname in g.callee_names_in(w)):
+        if not (masked and nxt.among(g.callee_names_in(w))):
             okp = False
     ck.ob("DRAW", f"{label}::draw_integers:masked", okp,
           f"{label}::draw_integers: every returned integer is an output of next() masked with domain_size - 1", loc=f.loc())
@@ -312,28 +339,28 @@ def pow_complement(ck, prog):
                     vcanon = op
     ck.ob("POW", "verifier-reject-predicate", vcanon == "<",
           "verifier rejects iff check_leading_zeros(nonce) < grinding_factor", loc=pv.loc())
-    gr = prog.fn("winter_prover::channel::ProverChannel::grind_query_seed")
+    from . import vguards as V
+    gr = prog.fn(V.GRIND)
     ck.saw(gr)
+    scope = V.nonce_search_scope(prog)
     pcanon = None
-    for cid in set(gr.closure_locals.values()):
-        cf = prog.fns.get(cid)
-        if cf is None:
-            continue
+    from ..cfg import CMP_OPS
+    for cf in scope:
         cg = flow(cf)
         for ds in cg.sites:
-            if ds.local == 0 and ds.kind == "assign" and ds.stmt["k"] == "assign":
-                c = trace_cond(cf, {"copy": {"l": 0}}) if False else None
-                rv = ds.stmt["rv"]
-                from ..cfg import CMP_OPS
-                if rv["k"] == "bin" and rv["op"] in CMP_OPS:
-                    op = CMP_OPS[rv["op"]]
-                    for o, l, r in ((op, rv["a"], rv["b"]), (FLIP[op], rv["b"], rv["a"])):
-                        lw = cg.walk(ops=[l], at=(ds.b, ds.i))
-                        if any(n.endswith("RandomCoin::check_leading_zeros") for n in cg.callee_names_in(lw)):
-                            pcanon = o
-    # the grinding factor captured by the closure is the context's
-    gg = flow(gr)
-    gf_ok = any((callee_name(t) or "").endswith("ProofOptions::grinding_factor") for b, t in gr.calls())
+            if ds.kind != "assign" or ds.stmt["k"] != "assign":
+                continue
+            rv = ds.stmt["rv"]
+            if rv["k"] == "bin" and rv["op"] in CMP_OPS:
+                op = CMP_OPS[rv["op"]]
+                for o, l, r in ((op, rv["a"], rv["b"]), (FLIP[op], rv["b"], rv["a"])):
+                    lw = cg.walk(ops=[l], at=(ds.b, ds.i))
+                    rw = cg.walk(ops=[r], at=(ds.b, ds.i))
+                    if any(n.endswith("RandomCoin::check_leading_zeros") for n in cg.callee_names_in(lw)) and \
+                            not any(n.endswith("RandomCoin::check_leading_zeros") for n in cg.callee_names_in(rw)):
+                        pcanon = o
+    # the grinding factor compared against is the context's
+    gf_ok = any((callee_name(t) or "").endswith("ProofOptions::grinding_factor") for cf in scope for b, t in cf.calls())
     ck.ob("POW", "prover-search-predicate", pcanon is not None and vcanon is not None and pcanon == NEG[vcanon] and gf_ok,
           "the prover searches for a nonce with check_leading_zeros(nonce) >= grinding_factor — the exact complement of the verifier's reject predicate",
           loc=gr.loc(), detail=f"prover accepts iff measure {pcanon} factor; verifier rejects iff measure {vcanon} factor")
